@@ -38,6 +38,9 @@ CLAIMS["C11"] = ("add-only inventories (no Delete on revocation models, setBit(t
 CLAIMS["C09"] = ("ownership of did:nuts store writes + must-pass-through on the create/update handlers and the callback + provenance of the searched key list and controller list + validator-table completeness + inner validator gates (incl. kid derived from key material)",
   "Static decision that a network did:nuts document version is stored only after DID==thumbprint (creation) or a controller capabilityInvocation key match resolved as of the referenced transactions (update), through integrity/decoding/validator gates whose table is complete. Found and repaired the kid-in-JWK bypass. Exhaustive over the current source.",
   "Trusts go/ssa and go-did's W3C validator; relationship-embedded verification methods are outside the verification-method validator (observation).")
+CLAIMS["C16"] = ("must-pass-through on server registration, the registration/retraction validators and the client updater + argument provenance (signer-bound lookups) + transaction-closure ordering of the store (increment/delete/insert, timestamp-before-rows, wipe with full-row Save) + assumption-specialised reachability of the search filter",
+  "Static decision that the server lists only registrations that passed every listed check, that retractions are bound to the signer of an existing entry, that the store's timestamp protocol has the required ordering, and that the client marks entries validated only after verifying them itself and searches only validated, unexpired entries. Exhaustive over the current source.",
+  "Trusts go/ssa, gorm semantics; replica convergence over interleavings is not decided.")
 PENDING = {}
 
 def main():
